@@ -707,6 +707,15 @@ def rule_pair_distance_covers(repo, rep):
     def __init__(self, n, fill):
       self.n, self.fill, self.writes = n, fill, []
 
+  # Only the provenance matters here: which interval of pairs a value is
+  # computed from, row by row.  ('pairs', lo, hi) the tuples; ('slot', k, lo,
+  # hi) one point of each; ('val', lo, hi) anything computed row-wise from
+  # them (the arithmetic itself is the subject of the ALG rules of C01/C02).
+  ROWS = ('slot', 'val')
+
+  def ivl(v):
+    return (v[-2], v[-1])
+
   class W(World):
     def __init__(self, n):
       self.n = n
@@ -723,13 +732,23 @@ def rule_pair_distance_covers(repo, rep):
         return (min(a, hi), max(min(a, hi), b))
       return None
 
+    def _rows(self, vals):
+      """the common interval of the row-wise values among vals (None when
+      there is none or they disagree)"""
+      ivs = set(ivl(v) for v in vals if tg(v) in ROWS)
+      return ivs.pop() if len(ivs) == 1 else None
+
     def attr(self, it, v, attr, node):
       if v == S('self') and attr in ('preprocessor_', 'components_'):
-        return S(attr)
+        return S('opaque', attr)
+      if tg(v) == 'opaque' and attr in ('T', 'real'):
+        return v
       if tg(v) == 'pairs' and attr == 'shape':
         return (v[2] - v[1], 2, 3)
-      if tg(v) in ('diff', 'emb', 'sq', 'dist') and attr == 'shape':
-        return (v[2] - v[1],) + ((3,) if tg(v) != 'dist' else ())
+      if tg(v) in ROWS and attr == 'shape':
+        return (v[-1] - v[-2], S('cols'))
+      if tg(v) in ROWS and attr == 'real':
+        return v
       if isinstance(v, Buf) and attr == 'shape':
         return (v.n,)
       return NotImplemented
@@ -746,7 +765,7 @@ def rule_pair_distance_covers(repo, rep):
         if isinstance(rest[0], int) and rest[0] in (0, 1) and \
                 all(p == full for p in rest[1:]):
           return S('slot', rest[0], iv[0], iv[1])
-      if tg(base) in ('diff', 'emb', 'dist'):
+      if tg(base) in ROWS:
         parts = idx if isinstance(idx, tuple) else (idx,)
         iv = self._iv(parts[0], base[-2], base[-1])
         if iv is not None and all(p == full for p in parts[1:]):
@@ -754,57 +773,86 @@ def rule_pair_distance_covers(repo, rep):
       return NotImplemented
 
     def binop(self, it, op, a, b, node):
-      if isinstance(op, ast.Sub) and tg(a) == 'slot' and tg(b) == 'slot' \
-              and a[2:] == b[2:] and {a[1], b[1]} == {0, 1}:
-        return S('diff', a[2], a[3])
-      if isinstance(op, ast.Pow) and tg(a) == 'emb' and b == 2:
-        return S('sq', a[1], a[2])
-      if isinstance(op, ast.Mult) and tg(a) == 'emb' and a == b:
-        return S('sq', a[1], a[2])
+      # element-wise / row-wise arithmetic keeps the rows; operands from
+      # different intervals of pairs do not combine
+      if tg(a) in ROWS and tg(b) in ROWS:
+        if ivl(a) != ivl(b) or isinstance(op, ast.MatMult):
+          return NotImplemented
+        return S('val', *ivl(a))
+      for x, y in ((a, b), (b, a)):
+        if tg(x) in ROWS and (tg(y) == 'opaque' or isinstance(
+                y, (int, float)) or hasattr(y, 'numerator')):
+          if isinstance(op, ast.MatMult) and x is b:
+            return NotImplemented       # M @ rows contracts the pair axis
+          return S('val', *ivl(x))
+      return NotImplemented
+
+    def unary(self, it, op, v, node):
+      if tg(v) in ROWS and isinstance(op, (ast.USub, ast.UAdd)):
+        return S('val', *ivl(v))
       return NotImplemented
 
     def store(self, it, base, idx, value, node):
-      if isinstance(base, Buf) and tg(value) == 'dist':
+      if isinstance(base, Buf) and tg(value) == 'val':
         iv = self._iv(idx, 0, base.n)
         if iv is not None:
-          base.writes.append((iv, (value[1], value[2]), node))
+          base.writes.append((iv, ivl(value), node))
           return None
       return NotImplemented
 
     def call(self, it, d, recv, args, kwargs, node):
+      allv = list(args) + list(kwargs.values())
       if d.startswith('.'):
-        if recv == S('self') and d == '.transform' and tg(args[0]) == 'diff':
-          return S('emb', args[0][1], args[0][2])
-        if d == '.sum' and tg(recv) == 'sq' and \
-                kwargs.get('axis', args[0] if args else None) in (-1, 1):
-          return S('sqsum', recv[1], recv[2])
+        if recv == S('self') and d == '.transform' and args and \
+                tg(args[0]) in ROWS:
+          return S('val', *ivl(args[0]))
+        if tg(recv) in ROWS:
+          ax = kwargs.get('axis', args[0] if args else None)
+          if d in ('.sum', '.mean', '.max', '.min', '.prod'):
+            return S('val', *ivl(recv)) if ax in (-1, 1) else NotImplemented
+          if d == '.dot' and len(args) == 1 and tg(args[0]) == 'opaque':
+            return S('val', *ivl(recv))
+          if d in ('.copy', '.astype', '.ravel', '.squeeze', '.clip'):
+            return S('val', *ivl(recv))
         return NotImplemented
       short = d.rsplit('.', 1)[-1]
       if short == 'check_is_fitted':
         return None
       if short == 'check_input' and args and args[0] == S('arg'):
         return S('pairs', 0, self.n)
-      if d == 'len' and args and tg(args[0]) == 'pairs':
-        return args[0][2] - args[0][1]
+      if d == 'len' and args and tg(args[0]) in ('pairs',) + ROWS:
+        return args[0][-1] - args[0][-2]
       if d.startswith('numpy.'):
-        if short == 'sum' and args and tg(args[0]) == 'sq' and \
-                kwargs.get('axis', args[1] if len(args) > 1 else None) in (
-                    -1, 1):
-          return S('sqsum', args[0][1], args[0][2])
-        if short == 'einsum' and len(args) == 3 and args[0] == 'ij,ij->i' \
-                and tg(args[1]) == 'emb' and args[1] == args[2]:
-          return S('sqsum', args[1][1], args[1][2])
-        if short == 'sqrt' and args and tg(args[0]) == 'sqsum':
-          return S('dist', args[0][1], args[0][2])
-        if short == 'square' and args and tg(args[0]) == 'emb':
-          return S('sq', args[0][1], args[0][2])
-        if short == 'power' and len(args) == 2 and tg(args[0]) == 'emb' \
-                and args[1] == 2:
-          return S('sq', args[0][1], args[0][2])
-        if short == 'linalg.norm' or d.endswith('linalg.norm'):
-          if args and tg(args[0]) == 'emb' and kwargs.get(
-                  'axis', args[2] if len(args) > 2 else None) in (-1, 1):
-            return S('dist', args[0][1], args[0][2])
+        rows = [v for v in allv if tg(v) in ROWS]
+        iv = self._rows(allv)
+        if short in ('sqrt', 'square', 'abs', 'absolute', 'negative',
+                     'asarray', 'ascontiguousarray', 'real', 'maximum',
+                     'minimum', 'power', 'multiply', 'subtract', 'add',
+                     'divide', 'float_power', 'nan_to_num', 'clip') and \
+                rows and iv is not None:
+          return S('val', *iv)
+        if short in ('sum', 'mean', 'norm', 'amax', 'max', 'prod') and \
+                len(rows) == 1 and tg(args[0]) in ROWS:
+          ax = kwargs.get('axis', args[1] if len(args) > 1 and
+                          short != 'norm' else (args[2] if len(args) > 2
+                                                else None))
+          if ax in (-1, 1):
+            return S('val', *iv)
+          return NotImplemented
+        if short == 'einsum' and args and isinstance(args[0], str) and \
+                '->' in args[0] and rows and iv is not None:
+          ins, out = args[0].replace(' ', '').replace('...', 'Z').split('->')
+          ins = ins.split(',')
+          ops = args[1:]
+          if len(ins) == len(ops) and out[:1] and all(
+                  (sub[:1] == out[0]) == (tg(o) in ROWS)
+                  for sub, o in zip(ins, ops)) and \
+                  all(out[0] not in sub[1:] for sub in ins):
+            return S('val', *iv)
+          return NotImplemented
+        if short in ('dot', 'matmul') and len(args) == 2 and \
+                tg(args[0]) in ROWS and tg(args[1]) == 'opaque':
+          return S('val', *ivl(args[0]))
         if short in ('zeros', 'empty', 'ones') and args and \
                 (isinstance(args[0], int) or (
                     isinstance(args[0], tuple) and len(args[0]) == 1)):
@@ -812,12 +860,12 @@ def rule_pair_distance_covers(repo, rep):
           return Buf(n, short)
         if short in ('concatenate', 'hstack') and args and \
                 isinstance(args[0], (list, tuple)) and \
-                all(tg(x) == 'dist' for x in args[0]):
+                all(tg(x) == 'val' for x in args[0]):
           parts = list(args[0])
           ok = all(parts[i][2] == parts[i + 1][1]
                    for i in range(len(parts) - 1))
           if ok and parts:
-            return S('dist', parts[0][1], parts[-1][2])
+            return S('val', parts[0][1], parts[-1][2])
       return NotImplemented
   bad = unk = None
   ps = f.params()
@@ -834,7 +882,7 @@ def rule_pair_distance_covers(repo, rep):
       bad = bad or 'raises %s for n_pairs=%d' % (out[1][0], n)
       continue
     res = out[1]
-    if tg(res) == 'dist':
+    if tg(res) == 'val':
       if (res[1], res[2]) != (0, n):
         bad = bad or 'for n_pairs=%d the distances of pairs %d..%d are ' \
             'returned' % (n, res[1], res[2])
